@@ -95,3 +95,15 @@ CHECKS["C13"] = {
         {"pkg": MUX, "run": "^TestVerif_C13_Stress$", "checks": {"thorough": 300}, "race": True, "tiers": ["thorough"], "env": {"VERIF_RACE": "1"}},
     ],
 }
+
+CHECKS["C14"] = {
+    "level": "exploration",
+    "technique": "rapid-generated datagram write/deliver/read(buffer size)/close sequences on a real unordered Session pair over a test-owned network (synctest bubble); multiset reference model fed from the decoded wire tap",
+    "level_text": "Each read must return exactly one whole datagram that arrived on that stream and was not read before; short-buffer errors are only allowed (and required to leave the datagram intact) when a waiting datagram is larger than the buffer; accepted datagrams appear on the wire as exactly one frame, refused ones never; after the final drain every datagram of a still-open stream has been read exactly once.",
+    "level_note": "Arrival order across connections is serialised by the interpreter (one connection delivered at a time); no FIFO order between datagrams is demanded, only the multiset.",
+    "rule": "rapid draws unordered config (method, 1..8 conns or singleplex) and <=60 ops over 1..4 streams: datagram sizes 1..max and max+1,max+2,2*max; read buffers = size-1/size/size+1 of datagrams in flight or huge; closes. Non-trivial = a short-buffer read occurred, or >=2 streams shared a connection, or a frame overtook a lower one across connections; distinct = distinct scenarios.",
+    "assumptions": ["network delivers each record exactly once"],
+    "jobs": [
+        {"pkg": MUX, "run": "^TestVerif_C14_Datagrams$", "checks": {"quick": 2000, "thorough": 300000}, "shards": {"thorough": 16}, "timeout": {"quick": 300}},
+    ],
+}
